@@ -160,6 +160,15 @@ func (s *State) assume(c string) {
 	if c == "true" || c == "" {
 		return
 	}
+	// conjunctions are stored conjunct by conjunct (cheap path pruning looks for literal matches)
+	if strings.HasPrefix(c, "(and ") {
+		if xs, err := parseSx(c); err == nil && len(xs) == 1 && xs[0].isList && len(xs[0].list) > 1 {
+			for _, p := range xs[0].list[1:] {
+				s.assume(p.String())
+			}
+			return
+		}
+	}
 	s.pc = append(s.pc, c)
 }
 
@@ -215,6 +224,7 @@ type Unit struct {
 	nepoch   int
 	thName   string
 	pureSeq  int
+	dynAlias map[string]string
 	usedBounded map[string]string // bounded-only clauses relied upon -> adapter
 	usedEnsures map[string]bool   // in-module callee ensures relied upon (obligation names)
 }
@@ -508,6 +518,7 @@ func (u *Unit) store(s *State, a Addr, v Term) {
 
 // typeFacts adds well-formedness facts for a symbolic value of Go type t.
 func (u *Unit) typeFacts(s *State, v Term, t types.Type) {
+	u.typeInvariant(s, v, t)
 	switch tt := t.Underlying().(type) {
 	case *types.Slice:
 		s.assume(fmt.Sprintf("(and (wfSlice %s) (<= (sl_arr %s) allocbase))", v.S, v.S))
@@ -575,6 +586,13 @@ func (u *Unit) checkPureStoreS(s *State, a Addr) {
 			u.pureViolation(s, "writes through pointer "+x.ptr.S)
 		}
 	case AddrElem:
+		if u.fc != nil {
+			for _, m := range u.fc.modifies() {
+				if t, ok := u.entryVals[m]; ok && x.region.S == "(sl_arr "+t.S+")" {
+					return // element of a slice parameter the contract lists under modifies
+				}
+			}
+		}
 		if !strings.HasPrefix(x.region.S, "arr!") && !strings.HasPrefix(x.region.S, "arr.") && !(s != nil && s.regionFresh(x.region.S)) {
 			u.pureViolation(s, "writes an element of a slice it did not allocate: "+x.region.S)
 		}
@@ -591,4 +609,44 @@ func (s *State) regionFresh(region string) bool {
 
 func (s *State) isFreshSlice(t string) bool {
 	return s.freshSl[t] || strings.HasPrefix(t, "(mk_slice arr!") || strings.HasPrefix(t, "(mk_slice mkslice!")
+}
+
+// typeInvariant assumes the registered representation invariant of a struct type (and of struct-typed fields one
+// level down) for a value that comes from memory or from foreign code. The invariant is established by every
+// constructor of the type (proved there); the fields are unexported, so no other code can build such values.
+func (u *Unit) typeInvariant(s *State, v Term, t types.Type) {
+	if len(u.p.cs.TypeInv) == 0 || t == nil {
+		return
+	}
+	n, ok := t.(*types.Named)
+	if !ok {
+		return
+	}
+	st, ok := n.Underlying().(*types.Struct)
+	if !ok {
+		return
+	}
+	key := n.Obj().Pkg().Name() + "." + n.Obj().Name()
+	if inv, ok := u.p.cs.TypeInv[key]; ok {
+		vv := v
+		vv.T = t
+		env := &Env{u: u, s: s, old: s, names: map[string]Term{"_v": vv}}
+		g, err := env.formula(inv)
+		if err != nil {
+			panic(abortUnit{"type-invariant " + key + ": " + err.Error()})
+		}
+		s.assume(g)
+		u.usedAssume = appendUnique(u.usedAssume, "type invariant of "+key+" assumed for values read from memory or returned by foreign code: "+inv)
+	}
+	so := u.ss.sortOf(t)
+	for i := 0; i < st.NumFields(); i++ {
+		ft := st.Field(i).Type()
+		if fn, ok := ft.(*types.Named); ok {
+			if _, isSt := fn.Underlying().(*types.Struct); isSt && fn.Obj().Pkg() != nil {
+				if _, has := u.p.cs.TypeInv[fn.Obj().Pkg().Name()+"."+fn.Obj().Name()]; has {
+					u.typeInvariant(s, Term{S: fmt.Sprintf("(%s %s)", fieldSel(so, st, i), v.S), Sort: u.ss.sortOf(ft), T: ft}, ft)
+				}
+			}
+		}
+	}
 }
